@@ -12,7 +12,26 @@ from harness.props import c01
 from harness.props.c02 import coq_impl
 
 IMPORTS = "From Ford Require Import Base.Str Lex.Quote Lex.Reader Corr.C02 Corr.C03."
-THEOREMS = ["C03_reader_docs", "C03_attach", "C03_file_docs"]
+THEOREMS = ["C03_reader_docs", "C03_reader_docs4", "C03_attach", "C03_file_docs"]
+# fixed inputs of the reader part: (marks, lines, items)
+DEFAULT = ("!", ">", "*", "|")
+READER_CORPUS = [
+    # all four styles in one file (Lex/ReaderDoc4Proofs.v example_docs4, without its empty documentation lines)
+    (DEFAULT, ["! header", "!| about m", "! more about m", "!   indented", "module m", "  !* after m, a block",
+               "  ! second line of the block", "", "  ! an ordinary comment", "  !> pre for x",
+               "  !! with a plain-marked line", "  ! ordinary", "", "  !| then an alternate block", "  ! its second line", " ",
+               "  integer :: x !! and inline ! text", "    !! a following line for x",
+               "  call f('a!b') ; y = 1! ordinary trailing", "  !* block for the call", "  ! its end",
+               "!| one", "!> two", "!| three", "", "  ", "end module m", "! trailer"],
+     [("module m", [" about m", " more about m", "   indented"], [" after m, a block", " second line of the block"]),
+      ("integer :: x", [" pre for x", " with a plain-marked line", " then an alternate block", " its second line"],
+       [" and inline ! text", " a following line for x"]),
+      ("call f('a!b')", [], []), ("y = 1", [], [" block for the call", " its end"]),
+      ("end module m", [" one", " two", " three"], [])]),
+    # a blank line does not end a pre-alt block, it does end an alt block (Lex/ReaderDoc4Proofs.v prealt_blank)
+    (DEFAULT, ["!| about x", "", "! more", "x = 1", "!* after x", "", "! ordinary", "y = 2"],
+     [("x = 1", [" about x", " more"], [" after x"]), ("y = 2", [], [])]),
+]
 try:
     from harness.props import c03doc
 except Exception:  # noqa  (the documentation-text half is developed separately)
@@ -39,8 +58,15 @@ def run(chk):
     try:
         # A. reader: every statement followed by exactly its documentation, four styles, any markers
         cases, terms = [], []
-        for _ in range(900 if quick else 30000):
-            marks, lines, items = D.gen_case(rng)
+        shape_counts = {}
+        gens = list(READER_CORPUS) + [None] * (900 if quick else 30000)
+        for g in gens:
+            if g is not None:
+                marks, lines, items = g
+            else:
+                marks, lines, items, shapes = D.gen_case(rng)
+                for sh in shapes:
+                    shape_counts[sh] = shape_counts.get(sh, 0) + 1
             if not ascii_ok(lines):
                 continue
             res = run_reader(lines, marks, workdir=work)
@@ -62,6 +88,7 @@ def run(chk):
                                "items": items, "impl": res, "code": code,
                                "meaning": "bit0 model!=impl, bit1 statements/doc lines differ from the documented rule"},
                               bool(code & 2))
+        chk.extra["reader_doc_shapes"] = shape_counts
         # B. attach: the documentation lands on the declared entity (whole files, all four styles)
         tcases, tterms = [], []
         for i in range(150 if quick else 4000):
